@@ -36,6 +36,12 @@ COMPONENTS = {
 }
 PROBES = ["cmd-own", "cmd-broadcast", "cmd-other", "undefined-cs", "invalid-name", "bootup-byte", "toggle-bit-set", "wait-hb-returned", "wait-hb-timeout",
           "wait-bootup-returned", "wait-bootup-timeout", "slave-heartbeat", "stale-heartbeat-before-wait"]
+# probes that mark an injected disturbance; the runner also counts them as fired faults in the evidence
+FAULT_PROBES = {'stale-heartbeat-before-wait': 'stale-heartbeat',
+ 'toggle-bit-set': 'guard-toggle-bit-in-state-byte',
+ 'undefined-cs': 'undefined-nmt-command',
+ 'wait-bootup-timeout': 'heartbeat-missing-or-late',
+ 'wait-hb-timeout': 'heartbeat-missing-or-late'}
 
 CS = (1, 2, 80, 96, 128, 129, 130, 0, 3, 200)
 TABLE = {1: 5, 2: 4, 80: 80, 96: 96, 128: 127, 129: 0, 130: 0}
